@@ -27,6 +27,9 @@ RULE = ('default sets: plain RuleDefault, DocumentedRuleDefault with 1-2 '
         'Rules.load map each name to exactly its default; the JSON sample '
         'holds the same mapping.  case = one (default set, description, '
         'options); non-trivial = description of >=2 atoms.')
+RULE += (
+         ' Check strings include three that are longer than any'
+         ' line-folding width.')
 ASSUMPTIONS = ['names and check strings free of double quotes, backslashes '
                'and line breaks (as the property states)',
                'atoms instead of all printable Unicode']
@@ -55,13 +58,23 @@ def count_desc(n):
     return sum(len(ATOMS) ** k for k in range(n + 1))
 
 
+CHECK_STRINGS = [
+    "'single':%(key)s", 'role:a or (role:b and %(a.b)s:x)', '@', '!', '',
+    'rule:other and not is_admin:True',
+    # longer than any line-folding width, with and without blanks to fold at
+    ' or '.join('role:member_of_group_%02d' % i for i in range(12)),
+    'project_id:%(' + 'very_long_target_attribute_name_' * 4 + ')s',
+    '(' * 30 + 'role:deep' + ')' * 30 + ' and not ' + 'role:x' + ' ' * 90 +
+    'or role:y',
+]
+
+
 def make_defaults(P, kind, desc, variant=0):
     """-> (list of defaults, expected {name: check_str})"""
     ops = [{'path': '/v1/{id}#frag:x', 'method': 'GET'},
            {'path': '/v1/a b', 'method': 'POST'}][:1 + variant % 2]
     since = ['1.0', 'Z #"x":', '2024.1\t'][variant % 3]
-    cs = ["'single':%(key)s", 'role:a or (role:b and %(a.b)s:x)', '@', '!',
-          '', 'rule:other and not is_admin:True'][variant % 6]
+    cs = CHECK_STRINGS[variant % len(CHECK_STRINGS)]
     if kind == 'plain':
         d = [P.RuleDefault('svc:plain', cs, description=desc or None),
              P.RuleDefault('other', 'role:o')]
